@@ -1,9 +1,10 @@
 /-
   C12 — HOD staging keeps every per-halo attribute on the same row.
 
-  Property theorems about the model of `AbacusHOD.staging` (Model/C12.lean), over the column tables that
-  `harness/props/c12.py` regenerates from the source (Generated/StagingCols.lean): for every number of slabs,
-  every slab content, every order of the ids and every flag set.
+  Property theorems about the model of `AbacusHOD.staging` (Model/C12.lean), over the tables that
+  `harness/props/c12.py` regenerates on every run by observing the real code on probe files, once per flag
+  subset (Generated/StagingCols.lean, part 1; part 2 is the optional reading of the source text): for every
+  number of slabs, every slab content, every order of the ids and every flag set.
 
   Reading.  "Every per-halo array describes the same halo at the same row" = the returned named arrays are
   the arrays of *one* list of records (`toCols names recs'`), that list is a permutation of the records of
@@ -19,44 +20,36 @@ open AbacusVerif.Generated.StagingCols
 
 variable {Val : Type}
 
-/-! ### facts about the tables regenerated from the source -/
+/-! ### facts about the tables observed on the real code (Generated/StagingCols.lean, part 1) -/
 
-/-- **The generated-table fact.**  Every array that `staging` returns in `halo_data` has a statement
-`X = X[sortind]` in the sort block, unconditionally or under the very flag that guards its return.
-(`decide` over the regenerated tables: a returned array without such a statement breaks this proof.) -/
-theorem returned_cols_permuted :
-    ∀ e ∈ returned, ∃ p ∈ permuted, p.1 = e.2.1 ∧ (p.2 = none ∨ p.2 = e.2.2) := by
-  decide
-
-/-- Every returned array is allocated with the total halo count and filled slab by slab under a compatible
-flag; the sort key, the guard and the id column are `hid`; `searchsorted` uses the left insertion point. -/
-theorem returned_cols_filled :
-    (∀ e ∈ returned, (∃ p ∈ allocated, p.1 = e.2.1 ∧ (p.2 = none ∨ p.2 = e.2.2)) ∧
-                     (∃ p ∈ filled, p.1 = e.2.1 ∧ (p.2 = none ∨ p.2 = e.2.2))) ∧
-    ("hid", "hid", none) ∈ returned ∧ sortKey = "hid" ∧ searchSide = "left" := by
-  decide
-
-/-- **Single source.**  Under every flag set, every array returned in `halo_data` is filled from exactly one
-expression over the columns of the slab's `halos` dataset (no array is left unfilled, none is filled by two
-competing statements), the id array from the `id` column, and a 1-D velocity-deviate column is stacked
-along axis 1.  (`decide` over the regenerated tables.) -/
-theorem returned_cols_single_source :
-    (∀ fl ∈ flagSets, ∀ e ∈ returned, active fl e.2.2 = true → (sourcesOf haloSources fl e.2.1).length = 1) ∧
-    (∀ fl ∈ flagSets, sourcesOf haloSources fl "hid" = [.asInt (.field "id")]) ∧
-    velDev1d = "stack-axis1" := by
+/-- **Observation is complete.**  Every subset of the `want_*` flags has its entry, `hid` is returned under each,
+the returned ids are in ascending order, `pinds` is the left insertion point and a 1-D velocity-deviate
+column gives every halo its own deviate on the three axes. -/
+theorem observed_complete :
+    (subsets flagNames).all (fun fl => (entryOf fl).isSome) = true ∧ byFlags.length = 2 ^ flagNames.length ∧
+    (∀ e ∈ byFlags, "hid" ∈ e.returned) ∧ sortKey = "hid" ∧ searchSide = "left" ∧ velDev1d = "stack-axis1" := by
   decide +kernel
 
-/-- Under every flag set, every local array returned in `particle_data` (the derived `pweights`, `pinds`
-apart) and the two arrays `pweights` is computed from are filled from exactly one expression over the columns
-of the slab's `particles` dataset, the host-id array from `halo_id`; every key has either an array or a
-constant, never both. -/
+/-- **The generated-table fact.**  Under every flag subset, every array that `staging` returns in `halo_data`
+comes out in id order (it follows the permutation that sorts the ids) whenever the ids of the files are not
+already sorted.  (`decide` over the regenerated table: a returned array that stays in file order breaks this
+proof.) -/
+theorem returned_cols_permuted : ∀ e ∈ byFlags, ∀ v ∈ e.returned, v ∈ e.permuted := by
+  decide +kernel
+
+/-- **Single source.**  Under every flag subset, every array returned in `halo_data` is reproduced by exactly one
+expression over the columns of the slabs' `halos` datasets. -/
+theorem returned_cols_single_source :
+    ∀ e ∈ byFlags, ∀ v ∈ e.returned, (sourcesOf e.haloSources v).length = 1 := by
+  decide +kernel
+
+/-- Under every flag subset every key of `particle_data` (`pinds` apart) is either a constant or reproduced by
+exactly one expression over the columns of the slabs' `particles` datasets, never both; the host ids are the
+`halo_id` column and `pweights` has its expression. -/
 theorem part_cols_single_source :
-    (∀ fl ∈ flagSets, ∀ e ∈ partReturned, guardActive fl e.2.2 = true →
-      e.2.1 = "pweights" ∨ e.2.1 = "pinds" ∨ (sourcesOf partSources fl e.2.1).length = 1) ∧
-    (∀ fl ∈ flagSets, (sourcesOf partSources fl "pNp").length = 1 ∧ (sourcesOf partSources fl "psubsampling").length = 1 ∧
-      sourcesOf partSources fl "phid" = [.asInt (.field "halo_id")]) ∧
-    (∀ fl ∈ flagSets, ∀ d ∈ partDefaults, guardActive fl d.2.2 = true →
-      ∀ e ∈ partReturned, guardActive fl e.2.2 = true → e.1 ≠ d.1) := by
+    ∀ e ∈ byFlags, (∀ s ∈ e.partSources, (sourcesOf e.partSources s.1).length = 1) ∧
+      (∀ d ∈ e.partDefaults, sourcesOf e.partSources d.1 = []) ∧
+      sourcesOf e.partSources "phid" = [.field "halo_id"] ∧ (sourcesOf e.partSources "pweights").length = 1 := by
   decide +kernel
 
 /-- what each returned per-halo array is documented to hold (comments of `staging`, fields written by
@@ -65,53 +58,74 @@ velocity deviates (exponential or Gaussian·vrms), 3-d dispersion, concentration
 the two assembly-bias ranks and the shear rank -/
 def documentedHalo (expvel : Bool) : List (String × Src) :=
   [("hpos", .field "x_L2com"), ("hvel", .field "v_L2com"), ("hmass", .mulParam (.field "N") "Mpart"),
-   ("hid", .asInt (.field "id")), ("hmultis", .field "multi_halos"), ("hrandoms", .field "randoms"),
+   ("hid", .field "id"), ("hmultis", .field "multi_halos"), ("hrandoms", .field "randoms"),
    ("hveldev", if expvel then .field "randoms_exp" else .field "randoms_gaus_vrms"),
    ("hsigma3d", .field "sigmav3d_L2com"),
    ("hc", .div (.field "r98_L2com") (.field "r25_L2com")), ("hrvir", .field "r98_L2com"),
    ("hdeltac", .field "deltac_rank"), ("hfenv", .field "fenv_rank"), ("hshear", .field "shear_rank")]
 
+/-- the keys of `halo_data` under a flag set -/
+def documentedHaloKeys (ab shear : Bool) : List String :=
+  ["hpos", "hvel", "hmass", "hid", "hmultis", "hrandoms", "hveldev", "hsigma3d", "hc", "hrvir"] ++
+  (if ab then ["hdeltac", "hfenv"] else []) ++ (if shear then ["hshear"] else [])
+
 /-- the documented content of the per-particle arrays -/
 def documentedPart : List (String × Src) :=
   [("ppos", .field "pos"), ("pvel", .field "vel"), ("phvel", .field "halo_vel"), ("phmass", .field "halo_mass"),
-   ("phid", .asInt (.field "halo_id")), ("pNp", .field "Np"), ("psubsampling", .field "downsample_halo"),
+   ("phid", .field "halo_id"), ("pweights", .invProd (.field "Np") (.field "downsample_halo")),
    ("prandoms", .field "randoms"), ("pdeltac", .field "halo_deltac"), ("pfenv", .field "halo_fenv"),
-   ("pshear", .field "halo_shear"), ("p_ranks", .field "ranks"), ("p_ranksv", .field "ranksv"),
-   ("p_ranksp", .fieldOrZeros "ranksp"), ("p_ranksr", .fieldOrZeros "ranksr"), ("p_ranksc", .fieldOrZeros "ranksc")]
+   ("pshear", .field "halo_shear"), ("pranks", .field "ranks"), ("pranksv", .field "ranksv"),
+   ("pranksp", .fieldOrZeros "ranksp"), ("pranksr", .fieldOrZeros "ranksr"), ("pranksc", .fieldOrZeros "ranksc")]
 
-/-- **Sources as documented.**  Under every flag set, the one expression each returned array is filled from
-(regenerated from the source) is the documented one, for the halo arrays and for the particle arrays.
-A fill statement that reads another dataset column breaks this proof. -/
+/-- without `want_ranks` the five rank arrays are all ones -/
+def documentedDefaults (ranks : Bool) : List (String × String) :=
+  if ranks then [] else ["pranks", "pranksv", "pranksp", "pranksr", "pranksc"].map (fun k => (k, "ones"))
+
+/-- **Sources as documented.**  Under every flag subset the keys of `halo_data` are the documented ones, the one
+expression that reproduces each returned array is the documented one, for the halo arrays and for the particle
+arrays, and the constant particle arrays are the documented defaults.  An array filled from another dataset
+column breaks this proof. -/
 theorem sources_as_documented :
-    (∀ fl ∈ flagSets, ∀ e ∈ returned, active fl e.2.2 = true →
-      sourcesOf haloSources fl e.2.1 = ((documentedHalo (fl.contains "want_expvel")).lookup e.2.1).toList) ∧
-    (∀ fl ∈ flagSets, ∀ e ∈ partSources, guardActive fl e.2.2 = true →
-      sourcesOf partSources fl e.1 = (documentedPart.lookup e.1).toList) := by
+    ∀ e ∈ byFlags,
+      e.returned = documentedHaloKeys (e.flags.contains "want_AB") (e.flags.contains "want_shear") ∧
+      (∀ v ∈ e.returned,
+        sourcesOf e.haloSources v = ((documentedHalo (e.flags.contains "want_expvel")).lookup v).toList) ∧
+      (∀ s ∈ e.partSources, sourcesOf e.partSources s.1 = (documentedPart.lookup s.1).toList) ∧
+      e.partDefaults = documentedDefaults (e.flags.contains "want_ranks") := by
   decide +kernel
 
-/-- for every flag set: the arrays returned are among the arrays permuted -/
-theorem returnedVars_permuted (flags : List String) : ∀ v ∈ returnedVars flags, v ∈ permutedVars flags := by
-  intro v hv
-  simp only [returnedVars, List.mem_map, List.mem_filter] at hv
-  obtain ⟨e, ⟨he, hact⟩, rfl⟩ := hv
-  obtain ⟨p, hp, hname, hcond⟩ := returned_cols_permuted e he
-  simp only [permutedVars, List.mem_map, List.mem_filter]
-  refine ⟨p, ⟨hp, ?_⟩, hname⟩
-  rcases hcond with h | h
-  · rw [h]; rfl
-  · rw [h]; exact hact
+/-! ### facts read from the source text (part 2; no obligation when the text could not be interpreted) -/
 
-/-- the named arrays (all but the id array) returned under a flag set -/
-def haloNames (flags : List String) : List String := (returnedVars flags).filter (· ≠ "hid")
+/-- According to the source text every returned array is allocated with the total halo count and filled slab by
+slab under a compatible flag. -/
+theorem returned_cols_filled :
+    ∀ e ∈ astReturned, (∃ p ∈ astAllocated, p.1 = e.2.1 ∧ (p.2 = none ∨ p.2 = e.2.2)) ∧
+                        (∃ p ∈ astFilled, p.1 = e.2.1 ∧ (p.2 = none ∨ p.2 = e.2.2)) := by
+  decide +kernel
 
-theorem haloNames_permuted (flags : List String) : ∀ n ∈ haloNames flags, n ∈ permutedVars flags := by
+/-- **Text and observation agree.**  When the source text could be interpreted: under every flag subset it returns
+the observed keys, its `X = X[sortind]` statements cover exactly the arrays observed in id order, every fill
+expression it could translate is the observed one (halo and particle side), and it uses the observed
+`searchsorted` side. -/
+theorem ast_agrees_with_observed :
+    astAvailable = true →
+      astSearchSide = searchSide ∧
+      ∀ e ∈ byFlags,
+        astReturnedKeys e.flags = e.returned ∧
+        (∀ k ∈ e.returned, (k ∈ astPermutedKeys e.flags ↔ k ∈ e.permuted)) ∧
+        (∀ k ∈ e.returned, astHaloSourcesOf e.flags k = [] ∨ astHaloSourcesOf e.flags k = sourcesOf e.haloSources k) ∧
+        (∀ s ∈ e.partSources, astPartSourcesOf e.flags s.1 = [] ∨ astPartSourcesOf e.flags s.1 = sourcesOf e.partSources s.1) := by
+  decide +kernel
+
+/-- the named arrays (all but the id array) returned under a flag subset -/
+def haloNames (e : Entry) : List String := e.returned.filter (· ≠ "hid")
+
+theorem haloNames_permuted (e : Entry) (he : e ∈ byFlags) : ∀ n ∈ haloNames e, n ∈ e.permuted := by
   intro n hn
-  exact returnedVars_permuted flags n (List.mem_filter.mp hn).1
+  exact returned_cols_permuted e he n (List.mem_filter.mp hn).1
 
-theorem hid_permuted (flags : List String) : "hid" ∈ permutedVars flags := by
-  apply returnedVars_permuted
-  simp only [returnedVars, List.mem_map, List.mem_filter]
-  exact ⟨("hid", "hid", none), ⟨returned_cols_filled.2.1, rfl⟩, rfl⟩
+theorem hid_permuted (e : Entry) (he : e ∈ byFlags) : "hid" ∈ e.permuted :=
+  returned_cols_permuted e he "hid" (observed_complete.2.2.1 e he)
 
 /-! ### the sort index -/
 
@@ -159,18 +173,18 @@ theorem concat_rows (names : List String) (slabs : List (List (HaloRec Val))) :
     concatCols names (slabs.map (toCols names)) = .ok (toCols names slabs.flatten) :=
   concatCols_toCols names slabs
 
-/-- **staging_rows_aligned.**  For the arrays the real `staging` returns and the arrays its sort block
-permutes (both regenerated from the source), for every flag set, any number of slabs and any slab contents:
-the halo side of `staging` does not fail, and what it returns are the named arrays of one list of records
-that is a permutation of the records of the loaded slab files — each output row is an input record with
-every attribute unmodified — ordered by non-decreasing id. -/
-theorem staging_rows_aligned (flags : List String) (slabs : List (List (HaloRec Val))) :
-    ∃ recs', stageHalos (permutedVars flags) (haloNames flags) (slabs.map (toCols (haloNames flags)))
-        = .ok (toCols (haloNames flags) recs') ∧
+/-- **staging_rows_aligned.**  For the arrays the real `staging` was observed to return and to keep in id order,
+under every flag subset, any number of slabs and any slab contents: the halo side of `staging` does not fail,
+and what it returns are the named arrays of one list of records that is a permutation of the records of the
+loaded slab files — each output row is an input record with every attribute unmodified — ordered by
+non-decreasing id. -/
+theorem staging_rows_aligned (e : Entry) (he : e ∈ byFlags) (slabs : List (List (HaloRec Val))) :
+    ∃ recs', stageHalos e.permuted (haloNames e) (slabs.map (toCols (haloNames e)))
+        = .ok (toCols (haloNames e) recs') ∧
       recs'.Perm slabs.flatten ∧ (∀ r ∈ recs', r ∈ slabs.flatten) ∧
       (recs'.map (·.id)).Pairwise (· ≤ ·) := by
-  obtain ⟨recs', h1, h2, h3, h4⟩ := sort_rows_aligned (permutedVars flags) (haloNames flags) slabs.flatten
-    (haloNames_permuted flags) (hid_permuted flags)
+  obtain ⟨recs', h1, h2, h3, h4⟩ := sort_rows_aligned e.permuted (haloNames e) slabs.flatten
+    (haloNames_permuted e he) (hid_permuted e he)
   refine ⟨recs', ?_, h2, h3, h4⟩
   unfold stageHalos
   rw [concat_rows]
@@ -275,10 +289,10 @@ theorem fill_is_concat_cols (names : List String) (slabs : List (List (HaloRec V
 /-- **eval_rowwise.**  The values a slab contributes to array `v` are computed row by row: row `i` of the
 array is the source expression evaluated on row `i` of the dataset (stacked three times for a 1-D
 velocity-deviate column), so filling cannot mix rows. -/
-theorem eval_rowwise (ops : Ops Val) (tab : List (String × Src × Guard)) (flags : List String) (veldev1d : Bool)
+theorem eval_rowwise (ops : Ops Val) (tab : List (String × Src)) (veldev1d : Bool)
     (fields : List String) (recs : List (HaloRec Val)) (v : String) (src : Src)
-    (hsrc : sourcesOf tab flags v = [src]) (hf : ∀ f ∈ srcFields src, f ∈ fields) :
-    slabArray ops tab flags veldev1d (toCols fields recs) v =
+    (hsrc : sourcesOf tab v = [src]) (hf : ∀ f ∈ srcFields src, f ∈ fields) :
+    slabArray ops tab veldev1d (toCols fields recs) v =
       .ok (v, recs.map (fun r => if veldev1d && v == "hveldev" then ops.triple (evalRec ops r src)
                                  else evalRec ops r src)) := by
   unfold slabArray singleSource
@@ -336,11 +350,11 @@ example : (sortBlock ["hid", "hrvir"] (toCols ["hc", "hrvir"] exSlabs.flatten)).
 example : (sortBlock ["hc", "hrvir"] (toCols ["hc", "hrvir"] exSlabs.flatten)).toOption.map (·.hid) = none := by
   decide +kernel
 
--- staging_rows_aligned on the generated tables with every flag on: 12 named arrays + hid
-example : (haloNames ["want_AB", "want_shear"]).length + 1 = (returnedVars ["want_AB", "want_shear"]).length := by decide
-example : 9 ≤ (haloNames []).length := by decide
-example : ((stageHalos (permutedVars ["want_AB"]) (haloNames ["want_AB"])
-      (exSlabs.map (toCols (haloNames ["want_AB"])))).toOption.map (·.hid)) = some [2, 7, 9] := by
+-- staging_rows_aligned on the observed tables: the entry with every flag on has 12 named arrays + hid
+example : ∃ e ∈ byFlags, e.flags = flagNames ∧ (haloNames e).length = 12 ∧ e.returned.length = 13 := by decide +kernel
+example : ∀ e ∈ byFlags, 9 ≤ (haloNames e).length := by decide +kernel
+example : ((entryOf ["want_AB"]).map (fun e => ((stageHalos e.permuted (haloNames e)
+      (exSlabs.map (toCols (haloNames e)))).toOption.map (·.hid)))) = some (some [2, 7, 9]) := by
   decide +kernel
 
 -- ids_sorted / already_sorted_noop / pinds_points_to_host
@@ -360,11 +374,14 @@ example : fillColumnWith (fun _ => 1) [1, 2, 2] [[10], [11, 12], [13, 14]] = .er
 -- duplicates: equal ids keep their file order
 example : argsort [5, 3, 5, 3] = [1, 3, 0, 2] := by decide
 example : pinds [3, 3, 5, 5] [5, 3] = [2, 0] := by decide
--- source expressions of the generated table, evaluated on a record
-example : sourcesOf haloSources ["want_expvel"] "hveldev" = [.field "randoms_exp"] := by decide
-example : sourcesOf haloSources [] "hveldev" = [.field "randoms_gaus_vrms"] := by decide
-example : sourcesOf haloSources [] "hc" = [.div (.field "r98_L2com") (.field "r25_L2com")] := by decide
-example : flagSets.length = 2 ^ flagNames.length ∧ 4 ≤ flagNames.length := by decide
+-- source expressions of the observed table
+example : (entryOf ["want_expvel"]).map (fun e => sourcesOf e.haloSources "hveldev") = some [.field "randoms_exp"] := by
+  decide +kernel
+example : (entryOf []).map (fun e => sourcesOf e.haloSources "hveldev") = some [.field "randoms_gaus_vrms"] := by
+  decide +kernel
+example : (entryOf ["want_ranks", "want_AB"]).map (fun e => sourcesOf e.haloSources "hc") =
+    some [.div (.field "r98_L2com") (.field "r25_L2com")] := by decide +kernel
+example : 4 ≤ flagNames.length := by decide
 
 end NonVacuity
 
